@@ -51,6 +51,8 @@ def _operand_value(fn, op, env, atom):
     pl = op.get("pl")
     if pl is not None and "p" not in pl and pl["l"] in env:
         return env[pl["l"]]
+    if pl is not None and len(pl.get("p", [])) == 1 and isinstance(pl["p"][0], dict) and "f" in pl["p"][0] and (pl["l"], pl["p"][0]["f"]) in env:
+        return env[(pl["l"], pl["p"][0]["f"])]
     return eval3(fn, df.operand_expr(fn, op), env, atom)
 
 
@@ -60,9 +62,22 @@ def _transfer(fn, bb, env, atom):
         if s["k"] != "assign" or "p" in s["lhs"]:
             continue
         l = s["lhs"]["l"]
-        if fn.local_ty(l) != "bool":
-            continue
         rv = s["rv"]
+        if rv["k"] == "agg" and rv.get("ak") == "tuple":
+            # (flag_a, flag_b) = match .. { .. => (true, false), .. }: the booleans travel as fields of a tuple
+            for k in [k for k in env if isinstance(k, tuple) and k[0] == l]:
+                env.pop(k)
+            for i, o in enumerate(rv["ops"]):
+                if o.get("ty") == "bool" or (o.get("k") in ("copy", "move") and "p" not in o["pl"] and fn.local_ty(o["pl"]["l"]) == "bool"):
+                    v = _operand_value(fn, o, env, atom)
+                    if v is not None:
+                        env[(l, i)] = v
+            continue
+        if fn.local_ty(l) != "bool":
+            if rv["k"] != "use" or not str(fn.local_ty(l)).startswith("("):
+                for k in [k for k in env if isinstance(k, tuple) and k[0] == l]:
+                    env.pop(k)
+            continue
         v = None
         if rv["k"] == "use":
             v = _operand_value(fn, rv["op"], env, atom)
@@ -89,8 +104,12 @@ def _join(a, b):
     return {k: v for k, v in a.items() if b.get(k) == v}
 
 
-def reach_under(fn, atom, variant=None, disabled=()):
-    """Set of blocks reachable from the entry under the assumptions."""
+def reach_under(fn, atom, variant=None, disabled=(), blocked=(), per_iteration=False):
+    """Set of blocks reachable from the entry under the assumptions (never entering a block in `blocked`).  With per_iteration the
+    assumptions describe one iteration of a loop, earlier iterations being arbitrary: what is known about boolean locals is
+    forgotten at every loop head."""
+    from . import cfg as _cfg
+    heads = set(_cfg.loops(fn)) if per_iteration else set()
     variant = variant or (lambda e, adt: None)
     disabled = set(disabled)
     from . import patterns as pt
@@ -100,10 +119,10 @@ def reach_under(fn, atom, variant=None, disabled=()):
     seen_out = {}
     while work:
         bb = work.pop()
-        env_in = envs[bb]
+        env_in = {} if bb in heads else envs[bb]
         env = _transfer(fn, bb, env_in, atom)
         t = fn.blocks[bb]["term"]
-        succs = [s for s in fn.succs(bb) if (bb, s) not in disabled and not fn.blocks[s]["cleanup"]]
+        succs = [s for s in fn.succs(bb) if (bb, s) not in disabled and not fn.blocks[s]["cleanup"] and s not in blocked]
         if t["k"] == "switch":
             if t["dty"] == "bool":
                 v = _operand_value(fn, t["discr"], env, atom)
